@@ -276,7 +276,19 @@ impl<'a> W<'a> {
             }
             21 | 22 => self.if_expr(depth),
             23 => self.while_expr(depth, false).1,
-            _ => self.function("", depth + 1),
+            _ => {
+                // a function literal in the middle of an expression, now and then with a name (which the current scope
+                // then declares, exactly as a function statement would: it is gone when the block ends)
+                if self.r.chance(1, 3) {
+                    let n = if self.r.chance(1, 2) { (*self.r.pick(&NAMES)).to_string() } else { format!("h{}", self.fresh) };
+                    self.fresh += 1;
+                    let f = self.function(&n, depth + 1);
+                    self.declare(&n);
+                    f
+                } else {
+                    self.function("", depth + 1)
+                }
+            }
         }
     }
 
